@@ -29,7 +29,21 @@ type ScriptConn struct {
 	wrote   chan struct{}
 	consumed chan struct{}
 	endErr  error // when set: what Read returns once every chunk has been read (the peer died); otherwise Read blocks until Close
+	// write faults: the Write call that would carry the stream past faultAt[k] bytes accepts only the bytes up to there and
+	// returns a timeout (a peer that stopped reading for longer than the write deadline, then reads again)
+	faultAt []int
+	wrote_  int
 }
+
+type timeoutErr struct{}
+
+func (timeoutErr) Error() string   { return "write: i/o timeout" }
+func (timeoutErr) Timeout() bool   { return true }
+func (timeoutErr) Temporary() bool { return true }
+func (timeoutErr) Is(target error) bool { return target == os.ErrDeadlineExceeded }
+
+var _ net.Error = timeoutErr{}
+
 
 func NewScriptConn(chunks [][]byte) *ScriptConn {
 	return &ScriptConn{chunks: chunks, closed: make(chan struct{}), wrote: make(chan struct{}, 1024), consumed: make(chan struct{})}
@@ -93,8 +107,21 @@ func (c *ScriptConn) Write(p []byte) (int, error) {
 	default:
 	}
 	c.mu.Lock()
+	defer c.mu.Unlock()
+	if len(c.faultAt) > 0 && c.wrote_+len(p) > c.faultAt[0] {
+		n := c.faultAt[0] - c.wrote_
+		if n < 0 {
+			n = 0
+		}
+		c.faultAt = c.faultAt[1:]
+		if n > 0 {
+			c.Writes = append(c.Writes, append([]byte{}, p[:n]...))
+			c.wrote_ += n
+		}
+		return n, timeoutErr{}
+	}
 	c.Writes = append(c.Writes, append([]byte{}, p...))
-	c.mu.Unlock()
+	c.wrote_ += len(p)
 	return len(p), nil
 }
 
@@ -162,6 +189,8 @@ type ConnScript struct {
 	// "reset": what the reader gets after the last byte.  The next connection of the scenario is opened only after this one died.
 	Tail B      `json:"tail"`
 	Dies string `json:"dies"`
+	// WriteFaults: stream offsets at which a Write accepts only part of its bytes and times out
+	WriteFaults []int `json:"writeFaults"`
 }
 
 type FScenario struct {
@@ -183,6 +212,7 @@ type FrameObs struct {
 	Handoff   []B    `json:"handoff"`
 	Written   []B    `json:"written"`
 	Overlap   bool   `json:"overlap"` // two handler callbacks of this connection ran at the same time
+	WriteFault bool  `json:"writeFault"` // the transport failed a write: the outbound stream may end early (a prefix)
 }
 
 type rec struct {
@@ -274,6 +304,7 @@ func RunFraming(sc *FScenario) ([]FrameObs, string) {
 		for _, g := range sc.Conns[i].GapsMs {
 			conns[i].gaps = append(conns[i].gaps, time.Duration(g)*time.Millisecond)
 		}
+		conns[i].faultAt = append([]int{}, sc.Conns[i].WriteFaults...)
 		switch sc.Conns[i].Dies {
 		case "eof":
 			conns[i].endErr = io.EOF
@@ -367,10 +398,14 @@ func RunFraming(sc *FScenario) ([]FrameObs, string) {
 	}
 	for i := range sc.Conns {
 		i := i
-		waitFor(2*time.Second, func() bool {
+		wait := 2 * time.Second
+		if len(sc.Conns[i].WriteFaults) > 0 {
+			wait = 300 * time.Millisecond // the connection may have been given up: nothing more will come
+		}
+		waitFor(wait, func() bool {
 			conns[i].mu.Lock()
 			defer conns[i].mu.Unlock()
-			return len(conns[i].Writes) >= sc.Conns[i].Out
+			return len(conns[i].Writes) >= sc.Conns[i].Out+len(sc.Conns[i].WriteFaults)+1
 		})
 	}
 	var out []FrameObs
@@ -378,7 +413,7 @@ func RunFraming(sc *FScenario) ([]FrameObs, string) {
 		recs[i].mu.Lock()
 		conns[i].mu.Lock()
 		o := FrameObs{K: "frame", ID: sc.ID, Role: sc.Role, Conn: i, Sent: sc.Conns[i].Sent, Chunks: sc.Conns[i].Chunks,
-			Delivered: recs[i].delivered, Handoff: recs[i].handoff, Overlap: recs[i].overlap}
+			Delivered: recs[i].delivered, Handoff: recs[i].handoff, Overlap: recs[i].overlap, WriteFault: len(sc.Conns[i].WriteFaults) > 0}
 		for _, w := range conns[i].Writes {
 			o.Written = append(o.Written, toB(w))
 		}
